@@ -1,7 +1,7 @@
 (* Property C18 - template caching is transparent and behaves as a bounded LRU.
    Only statements here; proofs live in LRU/Proofs.v (list-level model LRU/Model.v) and
    LRU/HeapProofs.v (pointer-level model LRU/Heap.v: heap of nodes with prev/next, sentinels, dict). *)
-From DJC Require Import Lib.Base LRU.Model LRU.Proofs LRU.Heap LRU.HeapProofs.
+From DJC Require Import Lib.Base LRU.Model LRU.Proofs LRU.Heap LRU.HeapProofs LRU.Render LRU.RenderProofs.
 
 (* The cache never holds more than the configured number of entries (any history, any maxsize). *)
 Theorem size_le_cap : forall (V : Type) (c : Z) (ops : list (op V)),
@@ -175,3 +175,27 @@ Example heap_evict_premises_satisfiable :
     hset 3%N 30%N s = HOk s'' /\ walk_fwd s'' = [4%N; 2%N] /\ walk_bwd s'' = [2%N; 4%N] /\
     habs_items s'' = [(3%N, 30%N); (1%N, 10%N)] /\ length (hheap s'') = 5%nat.
 Proof. vm_compute. do 3 eexists. repeat split. Qed.
+
+(* ================= rendering through the cache (LRU/Render.v) =================
+   The cache hands the same Template OBJECT to every caller while it is cached, so whatever state the
+   object's nodes carry survives from one render to the next.  If rendering a freshly compiled template leaves
+   its nodes as compiled ("Templates AND their nodelists are IMMUTABLE", component.py), then for every
+   history of renders / clears and every cache size the outputs through the cache equal compiling afresh. *)
+Theorem render_transparent_when_nodes_immutable :
+  forall (S I O : Type) (s0 : N -> S) (rend : N -> S -> I -> O * S),
+  (forall k i, snd (rend k (s0 k) i) = s0 k) ->
+  forall cp ops, rrun s0 rend (init cp) [] 0%N ops = Some (fresh_run s0 rend ops).
+Proof. exact @render_transparent_init. Qed.
+Print Assumptions render_transparent_when_nodes_immutable.
+
+(* The hypothesis is necessary: a node that memoises a mutable argument (state = the list it handed out, the
+   component appends to it in place) renders [1;7], [1;7;7] through a cache of size 1 where compiling afresh
+   renders [1;7] twice; with size 0 nothing is shared and the outputs agree - the output depends on the size. *)
+Example memoised_mutable_argument_breaks_transparency :
+  let s0 := fun k : N => [k] in
+  let rend := fun (k : N) (s : list N) (i : N) => (s ++ [i], s ++ [i]) in
+  let ops := [RRender 1%N 7%N; RRender 1%N 7%N] in
+  rrun s0 rend (init (Some 1%Z)) [] 0%N ops = Some [Some [1%N; 7%N]; Some [1%N; 7%N; 7%N]] /\
+  rrun s0 rend (init (Some 0%Z)) [] 0%N ops = Some (fresh_run s0 rend ops) /\
+  fresh_run s0 rend ops = [Some [1%N; 7%N]; Some [1%N; 7%N]].
+Proof. vm_compute. repeat split. Qed.
